@@ -91,15 +91,19 @@ _HTTP_COMMON = dict(imports=["Acl.Glob", "Server.KV", "Server.DB", "Server.Http"
 
 PROPS["C08"] = dict(_HTTP_COMMON,
     check="Run_Http.check_C08",
-    technique="Rocq proof (gate sound+complete, rejected requests inert, exact outcome->status map, identity function characterised) + in-process HTTP sessions through the real mux compared with the model in the kernel",
+    technique="Rocq proof (gate sound+complete, rejected requests inert, exact outcome->status map, identity function characterised, the HTML listing route = GET + identity + the caller's list call) + in-process HTTP sessions through the real mux compared with the model in the kernel",
     level_text=("Machine-checked theorems about the model of serveJSON/getIdentity: a request is accepted iff it is a POST with Content-Type exactly application/json, header value exactly "
                 "setec, an identifiable caller and a decodable body; a rejected request gets a 4xx/5xx constant body and performs no database step (state, audit log untouched); an accepted "
                 "request is exactly the db call of the identified caller and its outcome maps to 200+result / 304+empty / 403 / 404 / other error; no non-200 reply carries a result; the "
-                "identity/permission function is characterised exactly (tags else login; bare capability first, https:// one only when the bare one yields no rule; malformed grant fails). "
+                "identity/permission function is characterised exactly (tags else login; bare capability first, https:// one only when the bare one yields no rule; malformed grant fails); "
+                "the one non-API route (the HTML listing on / and every unmatched path) is accepted iff it is a GET from an identified caller and is then exactly that caller's list call. "
                 "Tied to the code by sessions of mostly-valid requests with deviations in method, content type, header, source address, WhoIs answer and body class sent through the real "
-                "mux with a recorder: status class, decoded body, audit records (principal!), database state and a secret-marker scan of non-200 bodies are compared with the model."),
+                "mux with a recorder: status class, decoded body (the HTML page is parsed back into a list result), audit records (principal, and that each names the node's hostname and the "
+                "request's address), database state and a secret-marker scan of non-200 bodies are compared with the model. The scripted tailnet answers only for the request's own ip:port "
+                "(asked about the bare IP or another port it reports a different, fully authorized node); nodes keep a stable identity while their grants are rewritten during a session; "
+                "grants come as several rules of mixed shape under either capability name; a question is repeated by another caller straight after a not-modified answer."),
     level_note="Trusted: Coq kernel+VM; which byte strings encoding/json accepts is not modelled (bodies are generated in classes of known acceptance); WhoIs answers always carry Node and UserProfile (as LocalClient returns them).",
-    rule=("random sessions of 10-40 HTTP requests (7 endpoints x methods x content types x header values x source addresses x WhoIs answers x 9 body classes, one or more deviations from a "
+    rule=("random sessions of 10-40 HTTP requests (7 API endpoints + the HTML listing x methods x content types x header values x source addresses x WhoIs answers x 9 body classes, one or more deviations from a "
           "valid request) through the real handlers on a pre-populated database; non-trivial if the session has at least one accepted and one refused request; distinct by session text"),
     explain="status class, body, audit records or database state after an HTTP request differ from the front-door model",
     assumptions=["request bodies are generated in classes whose JSON acceptance is certain", "values are tokens"],
